@@ -126,6 +126,7 @@ class Driver:
         self.quiescent_checks: list[dict] = []
         self.bookmarks = 0
         self.seq = 0
+        self.cons_obs: dict[int, list[tuple]] = collections.defaultdict(list)   # C07: per uid worker-side observations
         self._installed: list[tuple[Any, str, Any]] = []
 
     # ------------------------------------------------------------------ patching
@@ -193,6 +194,8 @@ class Driver:
             who = drv.whoami()
             if who == 'depletion':
                 drv.on_depletion_wait()
+            elif isinstance(who, int) and drv.tracing:
+                drv.cons_obs[who].append(('wait', drv.loop.time(), timeout))
             try:
                 res = await real_wait_for(fut, timeout, **kw)
             except asyncio.TimeoutError:
@@ -271,7 +274,10 @@ class Driver:
                     self.breaks.append(f'two backlog gets without a processor call in between: {self.pending_get}')
                 self.pending_get = (u, e)      # the processor entry must follow in the same loop iteration
         elif lq.role == 'pending':
-            self.log('Start', self.coro_uid.get(id(item.coro), -1))
+            u = self.coro_uid.get(id(item.coro), -1)
+            self.log('Start', u)
+            if self.tracing:
+                self.cons_obs[u].append(('start',))
 
     def on_wait_timeout(self, who: Any) -> None:
         if who == 'depletion':
@@ -309,6 +315,8 @@ class Driver:
         self.calls.append(call)
         self.inflight[u].append(call)
         self.log('Get', u, e, p)
+        if self.tracing:
+            self.cons_obs[u].append(('get', self.ev_rv.get(e), self.loop.time(), consistency_time))
         try:
             outcome = await call['fut']
         except asyncio.CancelledError:
@@ -330,6 +338,8 @@ class Driver:
         call['outcome'] = 'ok'
         call['returned'] = outcome[1]
         self.log('End', u, e)
+        if self.tracing:
+            self.cons_obs[u].append(('end', self.loop.time(), outcome[1]))
         return outcome[1]
 
     # ------------------------------------------------------------------ snapshots
